@@ -386,6 +386,28 @@ def run(ctx: Ctx) -> None:
                             world12[f"{y.id} is None"] = False
                 av12 = _exb12(prog, g_, gcfg, world12) if world12 else []
                 guarded12 = bool(guards) and gcfg.find_path([gcfg.entry], gcfg.nodes_of(r_), avoid=av12) is None
+                # the test may be held in a local (`has_text = tz is None or type(tz).__repr__ is not object.__repr__`, `if has_text: ... repr(..)`): read along the paths
+                cmps12 = [x for x in g_.own_nodes() if isinstance(x, ast.Compare) and len(x.ops) == 1 and "__repr__" in unparse(x, 200) and "object.__repr__" in unparse(x, 200)]
+                if not guards and cmps12:
+                    from ..propdom import feasible_path as _fp12
+                    subj12 = {y.id for x in cmps12 for y in ast.walk(x) if isinstance(y, ast.Name) and y.id != "object" and y.id != "type"}
+
+                    def _an12(e_: ast.AST) -> Optional[str]:
+                        if isinstance(e_, ast.Compare) and len(e_.ops) == 1:
+                            if any(e_ is x for x in cmps12) or ("__repr__" in unparse(e_, 200) and "object.__repr__" in unparse(e_, 200)):
+                                return ("" if isinstance(e_.ops[0], (ast.Is, ast.Eq)) else "!") + "<default-text>"
+                            if isinstance(e_.left, ast.Name) and e_.left.id in subj12 and isinstance(e_.comparators[0], ast.Constant) and e_.comparators[0].value is None:
+                                return ("" if isinstance(e_.ops[0], (ast.Is, ast.Eq)) else "!") + f"<none:{e_.left.id}>"
+                        return None
+                    w12 = {"<default-text>": True}
+                    for nm_ in subj12:
+                        w12[f"<none:{nm_}>"] = False
+                    if _fp12(prog, g_, gcfg, gcfg.nodes_of(r_), w12, _an12) is None:
+                        guarded12 = True
+
+                        class _G12:
+                            ast = cmps12[0]
+                        guards = [_G12()]  # type: ignore
                 if guards and (guarded12 or _dom12(ctx, g_, r_, guards) is None):
                     rep.ok("C03.R12", g_.qname, desc, g_.loc(r_))
                     # ... and the text of a datetime / time includes the text of its time zone: the test looks at `<value>.tzinfo` too
